@@ -113,6 +113,7 @@ class Model:
         self.broken_by_harness = []   # cids whose component was deliberately corrupted by an invalid call that was accepted
         self.aliased_to = None    # sibling Model whose Component / coordinate objects this dataset shares after a refresh
         self.alias_stale = False  # ... and the sibling changed shape afterwards
+        self.removed = []         # stored attributes the harness removed (candidates for remove-again / re-add)
         self.robbed = []          # derived cids of this dataset after it served as the source of a sibling's refresh
         self.counter = 0
 
@@ -148,6 +149,14 @@ class Model:
                     changed = True
         return gone
 
+    def depth_below(self, cid, gone):
+        """Length of the longest dependency chain hanging below cid among `gone` (0 = nothing depends on it)."""
+        best = 0
+        for dc in self.derived:
+            if is_in(dc, gone) and dc is not cid and is_in(cid, self.deps.get(id(dc), [])):
+                best = max(best, 1 + self.depth_below(dc, gone))
+        return best
+
     def prune(self):
         live = self.d.components
         self.derived = [c for c in self.derived if is_in(c, live)]
@@ -168,6 +177,50 @@ def values(rng, shape, kind="num"):
     if kind == "date":
         return (np.datetime64("2020-01-01") + np.array([rng.randint(0, 40) for _ in range(n)]).astype("timedelta64[D]")).reshape(shape)
     raise ValueError(kind)
+
+
+DTYPES = ["float64", "float32", "int8", "int64", "uint16", ">f8", "bool"]
+LAYOUTS = ["contiguous", "transposed_view", "fortran", "reversed", "strided", "broadcast"]
+
+
+def fancy_values(rng, shape, dtype=None, layout=None):
+    """Numeric values of the dataset's shape in a chosen dtype and memory layout -> (array, dtype name, layout name)."""
+    dtype = dtype or rng.choice(DTYPES)
+    layout = layout or rng.choice(LAYOUTS)
+    n = int(np.prod(shape)) if len(shape) else 1
+    base = np.array([rng.randint(0, 100) for _ in range(n)], dtype=float).reshape(shape)
+    if dtype == "bool":
+        base = base > 50
+    arr = base.astype(dtype)
+    if layout == "transposed_view" and len(shape) >= 2:
+        arr = np.ascontiguousarray(arr.T).T
+    elif layout == "fortran" and len(shape) >= 2:
+        arr = np.asfortranarray(arr)
+    elif layout == "reversed" and len(shape) >= 1:
+        arr = arr[tuple(slice(None, None, -1) for _ in shape)]
+    elif layout == "strided" and len(shape) >= 1:
+        big = np.zeros(tuple(2 * s_ for s_ in shape), dtype=arr.dtype)
+        view = big[tuple(slice(None, None, 2) for _ in shape)]
+        view[...] = arr
+        arr = view
+    elif layout == "broadcast" and len(shape) >= 1 and n > 0:
+        # stride-0 array: one slice repeated along the first axis
+        arr = np.broadcast_to(arr[:1], shape)
+    else:
+        layout = "contiguous"
+    assert tuple(arr.shape) == tuple(shape)
+    return arr, dtype, layout
+
+
+def same_size_other_shape(shape):
+    """A different shape with the same number of elements (None if there is none that is cheap to state)."""
+    if len(shape) >= 2 and shape[0] != shape[-1]:
+        return tuple(reversed(shape))
+    if len(shape) >= 2:
+        return (int(np.prod(shape)),)
+    if len(shape) == 1:
+        return (shape[0], 1)
+    return None
 
 
 def rand_shape(rng, nd=None):
@@ -544,8 +597,9 @@ def gen_op(world, rng, allow_hostile=True):
     # ---------------------------------------------------------------- add
     if kind == "add":
         v = rng.choices(["array", "list", "component", "cat", "date", "dup_label", "fresh_cid", "existing_cid",
-                         "wrong_shape", "wrong_ndim", "existing_cid_wrong_shape", "setitem"],
-                        [6, 2, 3, 3, 2, 3, 3, 4, 4, 2, 1, 2])[0]
+                         "wrong_shape", "wrong_ndim", "existing_cid_wrong_shape", "setitem", "dtype_layout", "same_size_other_shape",
+                         "shared_component_object", "readd_removed_cid", "odd_label", "dask", "object_array"],
+                        [4, 2, 3, 3, 2, 3, 3, 4, 3, 2, 1, 2, 6, 4, 2, 3, 3, 1, 1])[0]
         if not comps:
             shp = rand_shape(rng, (d.coords.pixel_n_dim if d.coords is not None else None))
             lab = m.fresh("n")
@@ -559,6 +613,51 @@ def gen_op(world, rng, allow_hostile=True):
         if v in ("existing_cid", "existing_cid_wrong_shape") and not mains:
             v = "array"
         lab = m.fresh("n")
+        if v == "readd_removed_cid":
+            gone = [c for c in m.removed if not is_in(c, comps)]
+            if not gone:
+                v = "array"
+            else:
+                cid = rng.choice(gone)
+                vals = values(rng, shape)
+                return Op("add", v, m, lambda: d.add_component(vals, cid), after=lambda b, ret: b.comps + [cid], desc=cid.label)
+        if v == "shared_component_object":
+            plain = [c for c in mains if type(d.get_component(c)) is Component]
+            if not plain:
+                v = "array"
+            else:
+                comp = d.get_component(rng.choice(plain))      # the same Component object under a second identifier
+                return Op("add", v, m, lambda: d.add_component(comp, lab), after=lambda b, ret: b.comps + [ret], desc=lab)
+        if v == "dask":
+            try:
+                import dask.array as da
+                from glue.core.component import DaskComponent
+                comp = DaskComponent(da.from_array(np.asarray(values(rng, shape)), chunks=tuple(max(1, s_) for s_ in shape)))
+                return Op("add", v, m, lambda: d.add_component(comp, lab), after=lambda b, ret: b.comps + [ret], desc=lab)
+            except ImportError:
+                v = "array"
+        if v == "object_array":
+            vals = values(rng, shape, "cat").astype(object)
+            return Op("add", v, m, lambda: d.add_component(vals, lab), after=lambda b, ret: b.comps + [ret], desc=lab)
+        if v == "odd_label":
+            # falsy / non-string / prefix-sharing labels: all legal, the identifier's label is str(label)
+            base = rng.choice(comps).label
+            lab2 = rng.choice(["", 0, None, base + " ", base[:1], base + base, base.upper(), np.str_(m.fresh("ns")), 1.5])
+            vals = values(rng, shape)
+            return Op("add", v, m, lambda: d.add_component(vals, lab2), after=lambda b, ret: b.comps + [ret], desc=repr(lab2))
+        if v == "dtype_layout":
+            vals, dt, lay = fancy_values(rng, shape)
+            world.ctx.count("add_dtype:" + dt)
+            world.ctx.count("add_layout:" + lay)
+            return Op("add", v, m, lambda: d.add_component(vals, lab), after=lambda b, ret: b.comps + [ret], desc=[lab, dt, lay])
+        if v == "same_size_other_shape":
+            oshape = same_size_other_shape(shape)
+            if oshape is None or int(np.prod(shape)) == 0 and False:
+                v = "wrong_shape"
+            else:
+                # same number of elements, other shape (transposed / flattened / extra unit axis): must be rejected
+                vals = values(rng, oshape)
+                return Op("add", v, m, lambda: d.add_component(vals, lab), expect="raise", desc=[lab, list(oshape)])
         if v == "array":
             vals = values(rng, shape, rng.choice(["num", "int"]))
             return Op("add", v, m, lambda: d.add_component(vals, lab), after=lambda b, ret: b.comps + [ret], desc=lab)
@@ -618,10 +717,29 @@ def gen_op(world, rng, allow_hostile=True):
                     numeric.append(c)
             except Exception:
                 pass
-        v = rng.choices(["binary", "chain", "via_add_component", "foreign_input", "no_target"], [6, 4, 3, 2, 1])[0]
+        v = rng.choices(["binary", "chain", "via_add_component", "foreign_input", "no_target", "chain3"], [6, 4, 3, 2, 1, 4])[0]
         if not numeric:
             v = "foreign_input"
         lab = m.fresh("der")
+        if v == "chain3":
+            # three levels in one go: l1 = f(root), l2 = f(l1), l3 = f(l2, l1) - removing root must take all of them
+            root = rng.choice(numeric)
+            labs = [lab, m.fresh("der"), m.fresh("der")]
+
+            def call3():
+                d.add_component_link(root * 2, labs[0])
+                l1 = d.components[-1]
+                d.add_component_link(l1 + 1, labs[1])
+                l2 = d.components[-1]
+                d.add_component_link(l2 - l1, labs[2])
+                return None
+
+            def post3(ret, b, root=root):
+                l1, l2, l3 = d.components[-3:]
+                for c, inp in ((l1, [root]), (l2, [l1]), (l3, [l2, l1])):
+                    m.derived.append(c)
+                    m.deps[id(c)] = inp
+            return Op("add_derived", v, m, call3, after=lambda b, ret: b.comps + [Op.FRESH] * 3, desc=[labs, root.label], post=post3)
         if v == "foreign_input":
             foreign = ComponentID("zz")
             link = foreign * 2
@@ -664,8 +782,18 @@ def gen_op(world, rng, allow_hostile=True):
 
     # ---------------------------------------------------------------- remove
     if kind == "remove":
-        v = rng.choices(["main", "derived", "input_of_derived", "absent", "pixel", "world", "last_main"],
-                        [8, 4, 5, 3, 1 if allow_hostile else 0, 1 if allow_hostile else 0, 1])[0]
+        v = rng.choices(["main", "derived", "input_of_derived", "absent", "pixel", "world", "last_main", "removed_again", "middle"],
+                        [8, 4, 7, 2, 1 if allow_hostile else 0, 1 if allow_hostile else 0, 1, 2, 2])[0]
+        if v == "removed_again":
+            gone_before = [c for c in m.removed if not is_in(c, comps)]
+            if gone_before:
+                cid = rng.choice(gone_before)      # the same call a second time: nothing happens, nothing is announced
+                return Op("remove", v, m, lambda: d.remove_component(cid), after=lambda b, ret: list(b.comps), desc=cid.label)
+            v = "absent"
+        if v == "middle":
+            v = "main"
+            if len(mains) >= 3:
+                mains = mains[1:-1]
         inputs = [c for c in comps if any(is_in(c, m.deps[id(dc)]) for dc in m.derived if is_in(dc, comps))
                   and m.kind_of(c) in ("main", "derived")]
         if v == "input_of_derived" and not inputs:
@@ -696,6 +824,11 @@ def gen_op(world, rng, allow_hostile=True):
         gone = m.closure(cid)
         if len(gone) > 1 and v in ("main", "last_main"):
             v = "input_of_derived"
+        world.ctx.count("removal_cascade_size:%s" % min(len(gone), 4) + ("+" if len(gone) >= 4 else ""))
+        depth = m.depth_below(cid, gone)
+        world.ctx.count("removal_cascade_depth:%d%s:%s" % (min(depth, 3), "+" if depth >= 3 else "", "hub" if world.hub is not None else "nohub"))
+        if v in ("main", "last_main", "input_of_derived") and not is_in(cid, m.removed):
+            m.removed.append(cid)
 
         def after(b, ret, gone=gone):
             return [c for c in b.comps if not is_in(c, gone)]
@@ -708,10 +841,18 @@ def gen_op(world, rng, allow_hostile=True):
     # ---------------------------------------------------------------- reorder
     if kind == "reorder":
         v = rng.choices(["permutation", "identical", "swap_two", "rotate", "missing_one", "duplicate_entry", "foreign_member",
-                         "extra_member"], [6, 2, 3, 2, 2, 2, 2, 1])[0]
-        if len(comps) < 2 and v in ("permutation", "swap_two", "rotate", "duplicate_entry"):
+                         "extra_member", "derived_first", "reversed", "repeated_id_longer", "foreign_same_label",
+                         "duplicate_entry_middle"], [6, 2, 3, 2, 2, 2, 2, 1, 3, 2, 2, 2, 2])[0]
+        if len(comps) < 2 and v in ("permutation", "swap_two", "rotate", "duplicate_entry", "reversed", "duplicate_entry_middle"):
             v = "identical"
         new = list(comps)
+        if v == "derived_first":
+            # dependants stored before their inputs
+            new = [c for c in comps if is_in(c, derived)][::-1] + [c for c in comps if not is_in(c, derived)]
+            v = "derived_first" if ids(new) != ids(comps) else "identical"
+        elif v == "reversed":
+            new = new[::-1]
+            v = "reversed" if ids(new) != ids(comps) else "identical"
         if v == "permutation":
             while ids(new) == ids(comps):
                 rng.shuffle(new)
@@ -722,7 +863,7 @@ def gen_op(world, rng, allow_hostile=True):
             new = new[1:] + new[:1]
             if ids(new) == ids(comps):
                 v = "identical"
-        if v in ("permutation", "swap_two", "rotate", "identical"):
+        if v in ("permutation", "swap_two", "rotate", "identical", "derived_first", "reversed"):
             arg = new if r() < 0.7 else tuple(new)
             return Op("reorder", v, m, lambda: d.reorder_components(arg), after=lambda b, ret: list(new), desc=labels(new))
         if v == "missing_one":
@@ -736,12 +877,46 @@ def gen_op(world, rng, allow_hostile=True):
                 new = [ComponentID("foreign")]
         elif v == "extra_member":
             new = new + [ComponentID("extra")]
+        elif v == "repeated_id_longer":
+            new = new + [rng.choice(new)] if new else [ComponentID("x")]
+        elif v == "duplicate_entry_middle":
+            # same length, one identifier twice, another missing: in the middle rather than at the front
+            i, j = rng.sample(range(len(new)), 2)
+            new[i] = new[j]
+            rng.shuffle(new)
+        elif v == "foreign_same_label":
+            # an equal-looking but distinct identifier in place of a member
+            if new:
+                k = rng.randrange(len(new))
+                new[k] = ComponentID(new[k].label, parent=d)
+            else:
+                new = [ComponentID("foreign")]
         return Op("reorder", v, m, lambda: d.reorder_components(new), expect="raise", desc=labels(new))
 
     # ---------------------------------------------------------------- rename
     if kind == "rename":
         cid = rng.choice(comps)
-        v = rng.choices(["new_label", "same_label", "duplicate_label", "non_string"], [7, 2, 3, 1])[0]
+        v = rng.choices(["new_label", "same_label", "duplicate_label", "non_string", "dup_same_category", "dup_other_category",
+                         "empty_label", "prefix_label"], [6, 2, 2, 1, 4, 4, 1, 2])[0]
+        if v in ("dup_same_category", "dup_other_category"):
+            # a label repeated within one category (main / derived / coordinate) or across two of them: what lookup by
+            # name must return depends on exactly this
+            cat = lambda c: "coordinate" if m.kind_of(c) in ("pixel", "world") else m.kind_of(c)
+            same = [c for c in comps if c is not cid and cat(c) == cat(cid) and c.label != cid.label]
+            other = [c for c in comps if cat(c) != cat(cid) and c.label != cid.label]
+            pool = same if v == "dup_same_category" else other
+            if pool:
+                lab = rng.choice(pool).label
+                how = "yes"
+            else:
+                v = "new_label"
+        if v == "empty_label":
+            lab = ""
+            how = "maybe" if cid.label == "" else "yes"
+        elif v == "prefix_label":
+            base = rng.choice(comps).label
+            lab = rng.choice([base + " ", base[:-1] or "q", base + "2", base.upper(), " " + base])
+            how = "maybe" if lab == cid.label else "yes"
         if v == "new_label":
             lab = m.fresh("r")
             how = "yes"
@@ -751,7 +926,7 @@ def gen_op(world, rng, allow_hostile=True):
         elif v == "duplicate_label":
             lab = rng.choice(comps).label
             how = "maybe" if lab == cid.label else "yes"
-        else:
+        elif v == "non_string":
             lab = rng.randint(0, 9)
             how = "maybe" if str(lab) == cid.label else "yes"
 
